@@ -5,20 +5,27 @@ hand-written seeds) and every input of its menu:
 
 * ground truth: the same source compiled under another file name, *uninstrumented*, executed under
   ``sys.monitoring`` ``LINE`` events restricted to the module's code objects (``mc.groundtruth``);
-  in the quick tier every call is also run under a second, independent oracle (``sys.settrace`` with
+  every call is also run under a second, independent oracle (``sys.settrace`` with
   ``f_trace_opcodes``: lines of the executed instructions); oracle disagreement = harness error;
 * reported: the module loaded through the real import hook, ``var_0 = mod.f(a, b)`` executed by the
-  real ``TestCaseExecutor``; metric sets LINE, LINE+BRANCH and LINE+BRANCH+CHECKED.
+  real ``TestCaseExecutor``; metric sets LINE, BRANCH+LINE and BRANCH+LINE+CHECKED.
 
-Oracle per execution (the module body -- the import trace, which pynguin merges into every trace --
-is checked as its own execution and subtracted from the calls):
+Pynguin's unit is the source line (``LineMetaData`` equality ignores the code object), so lines are
+compared as line numbers of the module.  Oracle per execution (the module body -- the import trace,
+which pynguin merges into every trace -- is checked as its own execution and subtracted from the calls):
 
-  L1  source lines reported (``covered_line_ids`` -> line numbers) == executed lines that are coverable
-      (coverable = pynguin's own ``existing_lines``; RESUME / END_FOR lines are skipped by design);
-      the same comparison per (code object, line) pair is reported under ``...@code-object``;
-  L2  every executed line (one with a LINE event in the plain run) is coverable ("line-not-coverable");
-  L3  every registered line's ``file_name`` is the SUT file ("foreign-line");
-  L4  ``compute_line_coverage`` == |executed coverable line ids (import + call)| / |existing_lines|.
+  L1  ``lineids_to_linenos(covered_line_ids)`` == executed lines that are coverable (coverable =
+      pynguin's own ``existing_lines``; RESUME / END_FOR lines are skipped by design)
+      -> ``line-reported-not-executed`` / ``line-executed-not-reported``;
+  L2  every executed line (one with a LINE event in the plain run) is coverable -> ``line-not-coverable``;
+  L3  every registered / reported line is a line of the SUT file (right ``file_name``, an int within the
+      file) -> ``foreign-line``;
+  L4  ``compute_line_coverage`` == |executed coverable lines (import + call)| / |existing_lines|
+      -> ``coverage-value-wrong``;
+  L5  the instrumented call ends like the plain one (same exception type or none) -> ``behaviour-differs``
+      (root causes are C01's; reported so that such calls are never silently skipped).
+
+Fingerprint: ``C02|<metric set>|<first opcode on the line | line-<n> | exc->exc>|<signature>``.
 """
 
 from __future__ import annotations
@@ -157,7 +164,15 @@ class Visitor:
             col.distinct("first_ops", case.plain.first_op(k, l))
 
     def behaviour_differs(self, col, case, rep, metrics, idx, plain_exc, inst_exc):
-        pass
+        """The instrumented call ends differently from the plain one: whatever is reported cannot be what the
+        interpreter did on the uninstrumented code.  (Root causes belong to C01; reported here under its own
+        signature so that it is never silently skipped.)"""
+        from mc import groundtruth as gt
+
+        a_src, b_src, _ev = case.inputs[idx]
+        col.violation(self._fp(metrics, f"{plain_exc}->{inst_exc}", "behaviour-differs"),
+                      f"{case.name} f({a_src}, {b_src}): the plain call ends with {plain_exc}, the instrumented "
+                      f"call with {inst_exc}", gt.case_data(case, metrics, idx), gt.case_rank(case, idx))
 
 
 def check_program(col, name, source, meta, metric_sets, scratch, second_oracle, sample_every=97):
@@ -191,13 +206,18 @@ def check_program(col, name, source, meta, metric_sets, scratch, second_oracle, 
                every=sample_every)
 
 
-def shard(col, kind, min_size, max_size, max_depth, k, nshards, metric_sets, second_oracle=True):
+def shard(col, kind, min_size, max_size, max_depth, k, nshards, metric_sets, second_oracle=True, root=None):
+    import os
     import shutil
     import tempfile
 
     from mc import progen
 
-    scratch = tempfile.mkdtemp(prefix="c02_", dir="/dev/shm")
+    if root is None:
+        scratch = tempfile.mkdtemp(prefix="c02_", dir="/dev/shm")
+    else:                       # a sub-directory of the run's ctx.scratch(): removed by the parent whatever happens
+        scratch = os.path.join(root, f"{kind}_{min_size}_{max_size}_{k}_{nshards}")
+        os.makedirs(scratch, exist_ok=True)
     try:
         if kind == "seeds":
             progs = [p for i, p in enumerate(progen.seeds()) if i % nshards == k]
@@ -227,6 +247,8 @@ def plan(ctx):
         n, d = 3, 3
         jobs += [("grammar", 1, 3, d, k, 4 * w, all_sets, True) for k in range(4 * w)]
     jobs += [("seeds", 0, 0, 0, k, 4, all_sets, True) for k in range(4)]
+    root = ctx.scratch(prefix="c02_")
+    jobs = [(*j, root) for j in jobs]
     if ctx.seed:
         r = ctx.seed % len(jobs)
         jobs = jobs[r:] + jobs[:r]
@@ -240,32 +262,48 @@ def run(ctx):
     par.run_shards("props.c02_line_coverage:shard", jobs, ctx.workers, ctx)
 
     c = ctx.col.counters
+    soft_failed = []
+    import os
+
+    from mc import findings
+    known = findings.load(os.environ.get("VERIF_HOME", os.path.dirname(os.path.dirname(os.path.abspath(__file__)))))
+    unlisted = [fp for fp in ctx.col.violations if findings.match(known, ID, fp) is None]
+
+    def guard(cond, msg, hard=False):
+        """Vacuity guards are harness errors -- unless a violation was found: a replayable counterexample is a
+        verdict on its own (exit 1) and must not be hidden behind exit 2; with only known findings, or none, the
+        guards are hard.  Oracle self-consistency and completeness of the enumeration are always hard."""
+        if cond:
+            return
+        if hard or not unlisted:
+            ctx.require(False, msg)
+        soft_failed.append(msg)
+
     total = sum(progen.count(n, d).values())
     ctx.note("progen_bound", {"max_size": n, "max_depth": d, "programs_in_bound": total,
                               "seeds": len(progen.seeds())})
     ctx.note("metric_sets", ["+".join(m) for m in METRIC_SETS])
     ctx.note("tier_plan", "sizes<=2 + seeds: all metric sets; size 3: LINE only" if ctx.quick
              else "sizes<=3 (depth<=3) + seeds: all metric sets")
-    ctx.require(c.get("instrumentation_failures", 0) * 10 <= c.get("modules_loaded", 0),
+    guard(c.get("instrumentation_failures", 0) * 10 <= c.get("modules_loaded", 0),
                 "too many modules could not be instrumented")
-    ctx.require(c.get("grammar_programs", 0) == total, f"grammar programs {c.get('grammar_programs')} != {total}")
-    ctx.require(c.get("seeds_programs", 0) == len(progen.seeds()), "not every seed was checked")
-    ctx.require(c.get("oracle_disagreements", 0) == 0,
+    guard(c.get("grammar_programs", 0) == total, f"grammar programs {c.get('grammar_programs')} != {total}", hard=True)
+    guard(c.get("seeds_programs", 0) == len(progen.seeds()), "not every seed was checked", hard=True)
+    guard(c.get("oracle_disagreements", 0) == 0,
                 "the two line oracles (sys.monitoring LINE / sys.settrace opcodes) disagree: "
-                f"{ctx.col.notes.get('oracle_disagreement_example')}")
-    ctx.require(c.get("second_oracle_calls", 0) > 300, "second oracle validated too few calls")
-    ctx.require(len(ctx.col.sets.get("outcomes", ())) > 50, "vacuous: too few distinct executed-line sets")
-    ctx.require(len(ctx.col.sets.get("nontrivial", ())) >= 2, "vacuous: no program whose inputs differ in coverage")
+                f"{ctx.col.notes.get('oracle_disagreement_example')}", hard=True)
+    guard(c.get("second_oracle_calls", 0) > 300, "second oracle validated too few calls")
+    guard(len(ctx.col.sets.get("outcomes", ())) > 50, "vacuous: too few distinct executed-line sets")
+    guard(len(ctx.col.sets.get("nontrivial", ())) >= 2, "vacuous: no program whose inputs differ in coverage")
     declared = ctx.col.sets.get("constructs_declared", set())
     evidenced = ctx.col.sets.get("constructs_evidenced", set())
-    ctx.require(declared and declared == evidenced,
+    guard(declared and declared == evidenced,
                 f"vacuity: constructs never seen in dis output: {sorted(declared - evidenced)}")
     for op in ("FOR_ITER", "END_FOR", "PUSH_EXC_INFO", "BEFORE_WITH", "YIELD_VALUE", "MATCH_SEQUENCE",
                "LIST_APPEND", "MAKE_FUNCTION", "LOAD_BUILD_CLASS", "NOP", "RERAISE"):
-        ctx.require(op in ctx.col.sets.get("opcodes", set()), f"vacuity: opcode {op} never generated")
-    ctx.require(c.get("behaviour_differs", 0) * 50 <= c.get("evaluations", 1),
-                f"too many calls behave differently when instrumented ({c.get('behaviour_differs')}): "
-                f"{ctx.col.notes.get('behaviour_differs_example')}")
+        guard(op in ctx.col.sets.get("opcodes", set()), f"vacuity: opcode {op} never generated")
+    if soft_failed:
+        ctx.note("vacuity_guards_failed_but_violations_found", soft_failed)
     ctx.exhaustive = True
     ctx.rule = ("one evaluation = one execution (module import or one call f(a, b)) under one metric set whose "
                 "reported line set is compared with the interpreter's; non-trivial = distinct bytecode shape "
@@ -277,8 +315,8 @@ def run(ctx):
                "metric set and counted (instrumentation_failures, skipped_checked_on_inlined_comprehension): C01")
     ctx.assume("coverable lines are pynguin's own existing_lines (RESUME / END_FOR lines are not coverable by "
                "design); completeness of that set is checked only for lines that were actually executed")
-    ctx.assume("calls whose exception type differs between plain and instrumented run are C01's subject and are "
-               "skipped here (counted in behaviour_differs)")
+    ctx.assume("a call whose exception type differs between plain and instrumented run is reported once as "
+               "behaviour-differs (root cause: C01) and its coverage is not compared further")
     ctx.assume("no coverage exclusions (pragma / only-cover) are configured: C08's subject")
 
 
